@@ -477,6 +477,15 @@ func runScenario(s scenario) result {
 	}) {
 		fail("C14/lifecycle", "IsDone() did not become true after the effect returned")
 	} else {
+		// a coroutine that has finished is one that was started: IsStarted stays true
+		if !s.BareTarget && !target.IsStarted() {
+			fail("C14/lifecycle", "IsStarted() of the target is false after its effect has returned (IsDone() is true)")
+		}
+		for i, c := range cors {
+			if c != nil && c.IsDone() && !c.IsStarted() {
+				fail("C14/lifecycle", "IsStarted() of caller %d is false after its effect has returned (IsDone() is true)", i)
+			}
+		}
 		// "YieldFromIO returns the IO's value" - it evaluates the IO and uses nothing of the coroutine, so the
 		// handles of the finished coroutines still do it (inline IO and IO observed on a handler)
 		for i, c := range cors {
